@@ -43,6 +43,7 @@ type op struct {
 	ak   byte  // answer kind: n e v
 	k    int   // answer id / write payload
 	cs   []int // writeh: the readers the writer's outbound hook closes inside the write
+	js   []int // answer kind j: the leaves of the joined error the reader answers with (a relayed joined-error response)
 }
 
 func (o op) line() string {
@@ -58,6 +59,13 @@ func (o op) line() string {
 	case "ans", "pop":
 		if o.ak == 'n' {
 			return fmt.Sprintf("%s %d n", o.kind, o.r)
+		}
+		if o.ak == 'j' {
+			l := fmt.Sprintf("%s %d j", o.kind, o.r)
+			for _, k := range o.js {
+				l += " " + strconv.Itoa(k)
+			}
+			return l
 		}
 		return fmt.Sprintf("%s %d %c %d", o.kind, o.r, o.ak, o.k)
 	case "deliver":
@@ -110,6 +118,15 @@ func parseOp(line string) (op, bool) {
 		if f[2] == "n" {
 			return op{kind: f[0], r: r, ak: 'n'}, len(f) == 3
 		}
+		if f[2] == "j" {
+			o := op{kind: f[0], r: r, ak: 'j'}
+			for i := 3; i < len(f); i++ {
+				k, ok2 := num(i)
+				ok = ok && ok2
+				o.js = append(o.js, k)
+			}
+			return o, ok && len(o.js) >= 1
+		}
 		k, ok := num(3)
 		return op{kind: f[0], r: r, ak: f[2][0], k: k}, ok && len(f) == 4 && (f[2] == "e" || f[2] == "v")
 	}
@@ -125,8 +142,41 @@ func mkAns(o op) *packet.Packet {
 			return packet.New(packet.ErrDroppedPacket)
 		}
 		return packet.New(types.NewError(errors.New("e" + strconv.Itoa(o.k))))
+	case 'j':
+		// what a reader that relays the joined error response of its own writer answers with: an error
+		// payload whose error is errors.Join of the leaves
+		var es []error
+		for _, k := range o.js {
+			es = append(es, leafErr(k))
+		}
+		return packet.New(types.NewError(errors.Join(es...)))
 	}
 	return packet.New(types.NewInt64(int64(o.k)))
+}
+
+func leafErr(k int) error {
+	if k == 0 {
+		return packet.ErrDroppedPacket.Unwrap()
+	}
+	return errors.New("e" + strconv.Itoa(k))
+}
+
+// errLeaves flattens an error into its leaves, in order: the harness's own walk over the errors.Join tree
+// (Unwrap() []error) and over wrappers with a single Unwrap() error.
+func errLeaves(err error) []error {
+	switch x := err.(type) {
+	case nil:
+		return nil
+	case interface{ Unwrap() []error }:
+		var out []error
+		for _, e := range x.Unwrap() {
+			out = append(out, errLeaves(e)...)
+		}
+		return out
+	case types.Error:
+		return errLeaves(x.Unwrap())
+	}
+	return []error{err}
 }
 
 func ansCanon(o op) string {
@@ -135,6 +185,12 @@ func ansCanon(o op) string {
 		return "N"
 	case 'e':
 		return "E" + strconv.Itoa(o.k)
+	case 'j':
+		var ids []string
+		for _, k := range o.js {
+			ids = append(ids, strconv.Itoa(k))
+		}
+		return "E" + strings.Join(ids, ",")
 	}
 	return "v" + strconv.Itoa(o.k)
 }
@@ -151,8 +207,11 @@ func canon(p *packet.Packet) string {
 	case nil:
 		return "nilpayload"
 	case types.Error:
+		// the leaves of the error, in order, by the harness's own walk over the join tree; the message
+		// (one line per leaf) must say the same
 		var ids []string
-		for _, m := range strings.Split(v.Error(), "\n") {
+		for _, e := range errLeaves(v) {
+			m := e.Error()
 			switch {
 			case m == "dropped packet":
 				ids = append(ids, "0")
@@ -161,6 +220,13 @@ func canon(p *packet.Packet) string {
 			default:
 				ids = append(ids, "?"+m)
 			}
+		}
+		var lines []string
+		for _, e := range errLeaves(v) {
+			lines = append(lines, e.Error())
+		}
+		if strings.Join(lines, "\n") != v.Error() {
+			return "E?message-differs-from-leaves:" + strings.ReplaceAll(v.Error(), "\n", "/")
 		}
 		return "E" + strings.Join(ids, ",")
 	case types.Int64:
@@ -889,6 +955,16 @@ func (g *gen) ans(r int) op {
 		return op{kind: "ans", r: r, ak: 'e', k: 0}
 	case 3:
 		return op{kind: "ans", r: r, ak: 'e', k: g.ctr}
+	case 4:
+		// a relayed joined error of 2–3 leaves (one of them may be the dropped-packet error)
+		o := op{kind: "ans", r: r, ak: 'j', js: []int{g.ctr, g.ctr + 100}}
+		if g.r.Chance(1, 2) {
+			o.js = append(o.js, g.ctr+200)
+		}
+		if g.r.Chance(1, 4) {
+			o.js[g.r.Intn(len(o.js))] = 0
+		}
+		return o
 	}
 	return op{kind: "ans", r: r, ak: 'v', k: g.ctr}
 }
@@ -1037,6 +1113,9 @@ func Run(c *lib.Ctx) {
 		c.Count(key)
 		for _, l := range res.lines {
 			c.Hit("op-" + strings.Fields(l)[0])
+			if f := strings.Fields(l); len(f) > 3 && f[2] == "j" {
+				c.Hit(fmt.Sprintf("answer-joined-error-of-%d-leaves-at-link-index-%s", len(f)-3, f[1]))
+			}
 		}
 		if res.relink {
 			c.Hit("history-relinks-with-pending")
@@ -1211,6 +1290,9 @@ func Run(c *lib.Ctx) {
 	}
 	c.Extra["close_discards"] = fmt.Sprintf("%d responses pushed by Writer.Close were not delivered by Receive() in %d histories (known finding close-discards-buffered: the pump drops its buffer when `in` closes); %d responses pushed by Close did arrive and were checked", closeLost, closeCases, closeChecked)
 
+	// 4. the two-level fan-out: a reader relays the joined response of its own writer (oracle only)
+	fails = append(fails, relayRig(c)...)
+
 	ms, err := c.RunModel("c01", model)
 	if err != nil {
 		c.Violation("model driver failed: "+err.Error(), "", false)
@@ -1223,6 +1305,109 @@ func Run(c *lib.Ctx) {
 	}
 	c.Extra["spec_cases"] = fmt.Sprintf("all %d histories also compared with the id-keyed specification: %d differ", spec.Cases(), len(ms2))
 	c.Conclude("Uniflow.Writer.step ~ packet.Writer/Reader (per-step return value, responses, deliveries); Uniflow.WriterSpec.step (all histories)", append(ms, ms2...), fails)
+}
+
+// relayRig: writer W1 with readers a and b (in either link order); b relays the request to its own writer W2
+// with readers c and d and answers W1 with W2's response packet as it is. c and d answer with errors (or close:
+// the dropped-packet stand-in), a answers with an error, a payload, or closes. The response on W1 must carry, in
+// link order, every error leaf: a's, then c's and d's (or the other way round when b was linked first).
+func relayRig(c *lib.Ctx) (fails []lib.OracleFail) {
+	take := func(ch <-chan *packet.Packet) *packet.Packet {
+		select {
+		case p := <-ch:
+			return p
+		case <-time.After(wait):
+			return nil
+		}
+	}
+	for variant := 0; variant < 24; variant++ {
+		bFirst := variant&1 == 1
+		aKind := (variant >> 1) % 3 // 0 error, 1 payload, 2 closes before answering
+		cCloses := (variant>>1)/3&1 == 1
+		dPayload := (variant>>1)/6&1 == 1
+		c.Hit("relay-rig-variant")
+		w1, w2 := packet.NewWriter(), packet.NewWriter()
+		a, b, cc, d := packet.NewReader(), packet.NewReader(), packet.NewReader(), packet.NewReader()
+		if bFirst {
+			w1.Link(b)
+			w1.Link(a)
+		} else {
+			w1.Link(a)
+			w1.Link(b)
+		}
+		w2.Link(cc)
+		w2.Link(d)
+		desc := fmt.Sprintf("relay rig: W1 linked to %s; a %s; W2's readers: c %s, d %s", map[bool]string{true: "b then a", false: "a then b"}[bFirst],
+			[]string{"answers error e1", "answers payload 1", "closes before answering"}[aKind],
+			map[bool]string{true: "closes before answering", false: "answers error e2"}[cCloses], map[bool]string{true: "answers payload 3", false: "answers error e3"}[dPayload])
+		bad := func(what string) {
+			fails = append(fails, lib.OracleFail{Class: "response", What: desc + ": " + what, Replay: "# " + desc + "\n"})
+		}
+		if w1.Write(packet.New(types.NewInt64(7))) != 2 {
+			bad("the request was not accepted by both readers of W1")
+		}
+		take(a.Read())
+		req := take(b.Read())
+		if req == nil || w2.Write(packet.New(req.Payload())) != 2 {
+			bad("the relayed request was not accepted by both readers of W2")
+		}
+		take(cc.Read())
+		take(d.Read())
+		var want []string // leaves expected from W2, then the whole
+		if cCloses {
+			cc.Close() // its drop notice is delivered by the goroutine Close spawns
+			want = append(want, "dropped packet")
+		} else {
+			cc.Receive(packet.New(types.NewError(errors.New("e2"))))
+			want = append(want, "e2")
+		}
+		if dPayload {
+			d.Receive(packet.New(types.NewInt64(3)))
+		} else {
+			d.Receive(packet.New(types.NewError(errors.New("e3"))))
+			want = append(want, "e3")
+		}
+		back := take(w2.Receive())
+		if back == nil {
+			bad("W2 gave no response")
+			continue
+		}
+		b.Receive(back) // the relay: W2's response packet as it is
+		var aLeaf []string
+		switch aKind {
+		case 0:
+			a.Receive(packet.New(types.NewError(errors.New("e1"))))
+			aLeaf = []string{"e1"}
+		case 1:
+			a.Receive(packet.New(types.NewInt64(1)))
+		default:
+			a.Close()
+			aLeaf = []string{"dropped packet"}
+		}
+		if bFirst {
+			want = append(want, aLeaf...)
+		} else {
+			want = append(aLeaf, want...)
+		}
+		resp := take(w1.Receive())
+		var got []string
+		if resp != nil {
+			if e, ok := resp.Payload().(types.Error); ok {
+				for _, l := range errLeaves(e) {
+					got = append(got, l.Error())
+				}
+			}
+		}
+		if resp == nil || strings.Join(got, " | ") != strings.Join(want, " | ") {
+			bad(fmt.Sprintf("the response on W1 carries the error leaves [%s]; the join of what the readers answered is [%s]", strings.Join(got, " | "), strings.Join(want, " | ")))
+		}
+		w1.Close()
+		w2.Close()
+		for _, r := range []*packet.Reader{a, b, cc, d} {
+			r.Close()
+		}
+	}
+	return fails
 }
 
 func sizeBucket(n int) string {
